@@ -318,7 +318,8 @@ fn gen_json(r: &mut Rng, depth: u32, out: &mut Vec<u8>) {
             out.push(*r.pick(&[b' ', b'\n', b'\t', b'\r']));
         }
     };
-    let kind = if depth >= 5 { r.below(5) } else { r.below(8) };
+    // top level: mostly containers (scalars exercise almost nothing of the index)
+    let kind = if depth >= 5 { r.below(5) } else if depth == 0 && r.chance(4, 5) { 5 + r.below(3) } else { r.below(8) };
     match kind {
         0 => out.extend_from_slice(*r.pick(&[&b"null"[..], b"true", b"false"])),
         1 | 2 => {
